@@ -70,6 +70,13 @@ package jmespath
 //@   assigns \nothing
 //@   decreases 0
 
+//@ func isNull
+//@   props C05,C07
+//@   assigns \nothing
+//@   ensures [null-is-null] isNil(v) ==> result
+//@   ensures [a-nil-pointer-is-null] isGo(v) ==> (result <==> (kindOf(v) == 22 && goIsNil(v)))
+//@   ensures [no-other-json-value-is-null] (isBool(v) || isNum(v) || isStr(v) || isArr(v) || isObj(v) || isExpRef(v)) ==> !result
+
 //@ func objsEqual
 //@   props C05,C07
 //@   requires specJSONVal(left) && specJSONVal(right)
@@ -1044,6 +1051,8 @@ package jmespath
 //@   decreases 4*nodeRank(node) + 2
 //@   ensures {C18} [not-a-syntax-error] !isSyntaxError(err)
 //@   ensures {C18} [go-result] err == nil ==> specGoVal(result)
+//@   ensures {C18} [nil-pointers-are-dropped-like-null] err == nil ==> isArr(result) && (forall j int :: 0 <= j && j < arrLen(result) ==> !nilPointer(arrAt(result, j)) && !isNil(arrAt(result, j)))
+//@   loop 1 invariant {C18} [no-null-collected] (forall j int :: 0 <= j && j < len(collected) ==> !nilPointer(collected[j]) && !isNil(collected[j]))
 //@   loop 1 invariant {C18} 0 <= i && !isNil(collected) && allGo(collected, len(collected))
 //@   loop 1 decreases goLen(value) - i
 
@@ -1054,6 +1063,8 @@ package jmespath
 //@   decreases 4*nodeRank(node) + 2
 //@   ensures {C18} [not-a-syntax-error] !isSyntaxError(err)
 //@   ensures {C18} [go-result] err == nil ==> specGoVal(result)
+//@   ensures {C18} [nil-pointers-are-dropped-like-null] err == nil ==> isArr(result) && (forall j int :: 0 <= j && j < arrLen(result) ==> !nilPointer(arrAt(result, j)) && !isNil(arrAt(result, j)))
+//@   loop 1 invariant {C18} [no-null-collected] (forall j int :: 0 <= j && j < len(collected) ==> !nilPointer(collected[j]) && !isNil(collected[j]))
 //@   loop 1 invariant {C18} 0 <= i && !isNil(collected) && allGo(collected, len(collected))
 //@   loop 1 decreases goLen(value) - i
 
@@ -1080,6 +1091,7 @@ package jmespath
 //@   loop 2 decreases goLen(value) - i
 // ---- BEGIN GO-VARIANT (generated by /verif/tools/mkgovariant.py; do not edit by hand) ----
 //@ define anyNumber(x) = same(x, x)
+//@ define nilPointer(v) = (isGo(v) && kindOf(v) == 22 && goIsNil(v))
 //@ define allGo(s, n) = (forall j int :: 0 <= j && j < n ==> specGoVal(s[j]))
 //@ define argsGoOK(a) = (forall j int :: 0 <= j && j < len(a) ==> specGoArgOK(a[j]))
 
@@ -1096,6 +1108,13 @@ package jmespath
 //@   loop 1 decreases stop - i
 //@   loop 2 invariant {C18} [walk] !isNil(result) && i <= len(slice)-1 && -1 <= stop && step < 0 && specWalkDown(slice, i, stop, step, result) == specWalkDown(slice, start, stop, step, specEmptyList())
 //@   loop 2 decreases i - stop
+
+//@ func isNull #go
+//@   props C18
+//@   assigns \nothing
+//@   ensures {C18} [null-is-null] isNil(v) ==> result
+//@   ensures {C18} [a-nil-pointer-is-null] isGo(v) ==> (result <==> (kindOf(v) == 22 && goIsNil(v)))
+//@   ensures {C18} [no-other-json-value-is-null] (isBool(v) || isNum(v) || isStr(v) || isArr(v) || isObj(v) || isExpRef(v)) ==> !result
 
 //@ func objsEqual #go
 //@   props C18
@@ -1170,6 +1189,11 @@ package jmespath
 //@   ensures {C18} [a-field-of-a-nil-pointer-is-null-and-a-pointer-to-a-struct-is-followed] node.nodeType == ASTField && kindOf(value) == 22 ==> err == nil && same(result, (!goIsNil(value) && kindOf(goElem(value)) == 25 && goHasField(goElem(value), capitalised(strOf(node.value))) && !goFieldUnexported(goElem(value), capitalised(strOf(node.value)))) ? goField(goElem(value), capitalised(strOf(node.value))) : nil)
 //@   ensures {C18} [a-field-of-an-object-is-its-member-whatever-the-members-are] node.nodeType == ASTField && isObj(value) ==> err == nil && same(result, objHas(value, strOf(node.value)) ? objAt(value, strOf(node.value)) : nil)
 //@   ensures {C18} [an-index-into-a-typed-slice-selects-that-element-counting-from-the-end-when-negative] node.nodeType == ASTIndex && kindOf(value) == 23 && !isArr(value) ==> err == nil && same(result, (intOf(node.value) < 0 ? ((0 <= intOf(node.value) + goLen(value)) ? goIndex(value, intOf(node.value) + goLen(value)) : nil) : ((intOf(node.value) < goLen(value)) ? goIndex(value, intOf(node.value)) : nil)))
+//@   ensures {C18} [multi-select-on-a-nil-pointer-is-null] (node.nodeType == ASTMultiSelectList || node.nodeType == ASTMultiSelectHash) && nilPointer(value) ==> err == nil && isNil(result)
+//@   ensures {C18} [projections-drop-nil-pointers-like-null] (node.nodeType == ASTProjection || node.nodeType == ASTFilterProjection || node.nodeType == ASTValueProjection) && err == nil && isArr(result) ==> (forall j int :: 0 <= j && j < arrLen(result) ==> !nilPointer(arrAt(result, j)) && !isNil(arrAt(result, j)))
+//@   loop 2 invariant {C18} [no-null-collected] (forall j int :: 0 <= j && j < len(collected) ==> !nilPointer(collected[j]) && !isNil(collected[j]))
+//@   loop 8 invariant {C18} [no-null-collected] (forall j int :: 0 <= j && j < len(collected) ==> !nilPointer(collected[j]) && !isNil(collected[j]))
+//@   loop 11 invariant {C18} [no-null-collected] (forall j int :: 0 <= j && j < len(collected) ==> !nilPointer(collected[j]) && !isNil(collected[j]))
 //@   loop 4 invariant {C18} [typed-element-flattened] !isNil(reflectFlat) && allGo(reflectFlat, len(reflectFlat)) && 0 <= i
 //@   loop 4 decreases goLen(element) - i
 
